@@ -27,6 +27,7 @@ type tgProp struct {
 type tgCase struct {
 	Rev     bool                `json:"rev,omitempty"` // print properties (and choice alternatives) in reverse order
 	Types   map[string][]tgProp `json:"types"`
+	Forms   map[string]string   `json:"forms,omitempty"` // "object" (default) | "nullable-object" | "alias" | "nullable-alias"
 	Finite  bool                `json:"finite"`
 	SelfReq bool                `json:"selfreq"`
 	Cycle   bool                `json:"cycle"`
@@ -39,9 +40,19 @@ func tgName(i int) string {
 	return fmt.Sprintf("@t%d", i)
 }
 
-func tgText(props []tgProp) string {
+func tgText(props []tgProp, form string) string {
+	switch form {
+	case "alias":
+		return tgName(props[0].T)
+	case "nullable-alias":
+		return tgName(props[0].T) + " // {nullable: true}"
+	}
+	rootAnn := ""
+	if form == "nullable-object" {
+		rootAnn = " // {nullable: true}"
+	}
 	if len(props) == 0 {
-		return "{}"
+		return "{}" + rootAnn
 	}
 	// stable order: as emitted (TLC prints sets in a deterministic order)
 	var lines []string
@@ -69,7 +80,7 @@ func tgText(props []tgProp) string {
 		}
 		lines = append(lines, fmt.Sprintf("  \"p%d\": %s%s%s", i, v, sep, ann))
 	}
-	return "{\n" + strings.Join(lines, "\n") + "\n}"
+	return "{" + rootAnn + "\n" + strings.Join(lines, "\n") + "\n}"
 }
 
 func tgShape(cs tgCase) string {
@@ -127,14 +138,14 @@ func tgEval(cs tgCase) []core.Finding {
 			}
 			cs.Types = rt
 		}
-		root := jschema.New("@main", tgText(cs.Types["0"]))
+		root := jschema.New("@main", tgText(cs.Types["0"], cs.Forms["0"]))
 		for _, k := range names {
 			if k == "0" {
 				continue
 			}
 			var i int
 			fmt.Sscan(k, &i)
-			if err := root.AddType(tgName(i), jschema.New(tgName(i), tgText(cs.Types[k]))); err != nil {
+			if err := root.AddType(tgName(i), jschema.New(tgName(i), tgText(cs.Types[k], cs.Forms[k]))); err != nil {
 				return []core.Finding{{Class: "typegraph:addtype", What: fmt.Sprintf("AddType(%s) failed: %v", tgName(i), firstLineOf(err))}}
 			}
 		}
@@ -194,7 +205,7 @@ func tgDump(cs tgCase) string {
 	for _, k := range names {
 		var i int
 		fmt.Sscan(k, &i)
-		fmt.Fprintf(&sb, "TYPE %s %s\n", tgName(i), strings.ReplaceAll(tgText(cs.Types[k]), "\n", " "))
+		fmt.Fprintf(&sb, "TYPE %s %s\n", tgName(i), strings.ReplaceAll(tgText(cs.Types[k], cs.Forms[k]), "\n", " "))
 	}
 	return sb.String()
 }
@@ -205,21 +216,26 @@ func runC06(c *core.Ctx) error {
 		sample     int // replay every k-th uninteresting graph
 	}
 	allModes := `{"plain", "optional", "nullable", "array"}`
-	mkx := func(n, mr, mo int, ring bool, modes string, fat int) string {
+	mkf := func(n, mr, mo int, ring bool, modes string, fat int, forms string) string {
 		r := "FALSE"
 		if ring {
 			r = "TRUE"
 		}
-		return fmt.Sprintf("SPECIFICATION Spec\nCONSTANTS\n  N = %d\n  MaxRoot = %d\n  MaxOther = %d\n  Ring = %s\n  ModesUsed = %s\n  FatTypes = %d\nINVARIANTS Theorem FixIsFixpoint NoRefsAreFinite Emit\nCHECK_DEADLOCK FALSE\n", n, mr, mo, r, modes, fat)
+		return fmt.Sprintf("SPECIFICATION Spec\nCONSTANTS\n  N = %d\n  MaxRoot = %d\n  MaxOther = %d\n  Ring = %s\n  ModesUsed = %s\n  FatTypes = %d\n  RootForms = %s\nINVARIANTS Theorem FixIsFixpoint NoRefsAreFinite NullableRootsAreFinite Emit\nCHECK_DEADLOCK FALSE\n", n, mr, mo, r, modes, fat, forms)
 	}
+	mkx := func(n, mr, mo int, ring bool, modes string, fat int) string { return mkf(n, mr, mo, ring, modes, fat, `{"object"}`) }
+	allForms := `{"object", "nullable-object", "alias", "nullable-alias"}`
 	mk := func(n, mr, mo int, ring bool) string { return mkx(n, mr, mo, ring, allModes, 0) }
 	// 4 types, requirement edges only (plain references and choices), one non-root type as large as the root:
 	// the graphs where a memoising or order-dependent walk goes wrong
 	cfgs := []cfgT{{"TypeGraph_3_2_1.cfg", mk(3, 2, 1, false), 1}, {"TypeGraph_ring4.cfg", mk(4, 1, 1, true), 1}, {"TypeGraph_ring5.cfg", mk(5, 1, 1, true), 1},
-		{"TypeGraph_4_plain_fat1.cfg", mkx(4, 2, 1, false, `{"plain"}`, 1), 1}}
+		{"TypeGraph_4_plain_fat1.cfg", mkx(4, 2, 1, false, `{"plain"}`, 1), 1},
+		// what the root node of a type may be: nullable objects and aliases, among 3 types and on rings of 4
+		{"TypeGraph_3_forms.cfg", mkf(3, 1, 1, false, `{"plain", "nullable"}`, 0, allForms), 1}, {"TypeGraph_ring4_forms.cfg", mkf(4, 1, 1, true, `{"plain"}`, 0, allForms), 1}}
 	if c.Thorough() {
 		cfgs = append(cfgs, cfgT{"TypeGraph_3_2_2.cfg", mk(3, 2, 2, false), 7}, cfgT{"TypeGraph_ring6.cfg", mk(6, 1, 1, true), 3}, cfgT{"TypeGraph_4_1_1.cfg", mk(4, 1, 1, false), 1},
-			cfgT{"TypeGraph_4_plainopt_fat1.cfg", mkx(4, 2, 1, false, `{"plain", "optional"}`, 1), 2}, cfgT{"TypeGraph_4_plain_fat2.cfg", mkx(4, 2, 1, false, `{"plain"}`, 2), 3})
+			cfgT{"TypeGraph_4_plainopt_fat1.cfg", mkx(4, 2, 1, false, `{"plain", "optional"}`, 1), 2}, cfgT{"TypeGraph_4_plain_fat2.cfg", mkx(4, 2, 1, false, `{"plain"}`, 2), 3},
+			cfgT{"TypeGraph_3_2_1_forms.cfg", mkf(3, 2, 1, false, allModes, 0, allForms), 3})
 	}
 	for _, cf := range cfgs {
 		var cases []tgCase
